@@ -86,6 +86,7 @@ var (
 	reFuncLit = regexp.MustCompile(`^funclit\s+(?:\(\s*(\*?\s*[A-Za-z_][A-Za-z0-9_]*)\s*\)\s*\.\s*)?([A-Za-z_][A-Za-z0-9_]*)\s*#\s*(\d+)`)
 	reLoop    = regexp.MustCompile(`^loop\s+(\d+)\s+(invariant|unroll|decreases)\s*(.*)$`)
 	reOnCall  = regexp.MustCompile(`^on\s+call\s+(.+?)(?:#(\d+))?(?:\s+returning\s+(nil|err|ok))?\s*:\s*([A-Za-z_][A-Za-z0-9_]*)\s*=\s*(.*)$`)
+	reOnAssign = regexp.MustCompile(`^on\s+assign\s+(.+?)\s*:\s*([A-Za-z_][A-Za-z0-9_]*)\s*=\s*(.*)$`)
 	reBefCall = regexp.MustCompile(`^before\s+call\s+(.+?)(?:#(\d+))?\s*:\s*assert\s+(.*)$`)
 	reBefRet  = regexp.MustCompile(`^before\s+return(?:\s+(nil|err))?\s*:\s*assert\s+(.*)$`)
 	reGhost   = regexp.MustCompile(`^ghost\s+var\s+([A-Za-z_][A-Za-z0-9_]*)\s+(\S+)\s*=\s*(.*)$`)
@@ -205,6 +206,12 @@ func ParseContractFile(path string) (*ContractFile, error) {
 				return nil, fmt.Errorf("%s:%d: bad ghost var", path, ln+1)
 			}
 			d.Kind, d.Name, d.Arg, d.Expr = "ghostvar", m[1], m[2], m[3]
+		case strings.HasPrefix(text, "on assign "):
+			m := reOnAssign.FindStringSubmatch(text)
+			if m == nil {
+				return nil, fmt.Errorf("%s:%d: bad on-assign directive", path, ln+1)
+			}
+			d.Kind, d.CallText, d.Name, d.Expr = "onassign", normCallText(m[1]), m[2], m[3]
 		case strings.HasPrefix(text, "on call "):
 			m := reOnCall.FindStringSubmatch(text)
 			if m == nil {
